@@ -137,4 +137,215 @@ mutual
     | .cons _ c rest => c.AllUnitary ∧ rest.AllUnitary
 end
 
+/-! ## base change of the coefficients
+
+`Comp.map φ c` applies `φ` to every entry of every leaf matrix.  With `φ` a ring homomorphism this
+is: evaluating variable parameters at an environment (`R = E → S`, `φ = (· e)`), evaluating the
+entries of a symbolic matrix (`use_symbolic=True`) numerically, or `freeze e` (what `copy()` does
+to the parameters). -/
+mutual
+  def Comp.map {S : Type} (φ : R → S) : Comp R → Comp S
+    | .leaf k U => .leaf k (U.map φ)
+    | .circ m items => .circ m (Items.map φ items)
+  def Items.map {S : Type} (φ : R → S) : Items R → Items S
+    | .nil => .nil
+    | .cons o c r => .cons o (Comp.map φ c) (Items.map φ r)
+end
+
+/-! ## reference semantics: a heap of circuits
+
+`Circuit.add(r, c)` stores the *object* `c`.  When `c` is a `Circuit` that somebody else still
+holds, `c` keeps growing after it was nested, and the parent's matrix follows.  The heap is a pool
+of circuit objects (`Cell`); an item of a cell is either held by value (an elementary component,
+or a sub-circuit nobody else can reach: the deep copy made by `Circuit.copy`) or is a reference to
+another pool entry.
+
+Acyclicity by construction: a cell carries a `rank` (ghost state, fixed at creation) and a
+reference may only point to a cell of strictly smaller rank.  No generality is lost: references
+are never removed, so an acyclic history of the real API is a ranked history for the topological
+ranks of its final reference graph.  (The real code does not reject a cyclic `add`; evaluation of a
+cyclic circuit does not terminate.  Cyclic programs are outside the property.) -/
+
+inductive HItem (R : Type) where
+  | val (c : Comp R)
+  | ref (j : ℕ)
+
+structure Cell (R : Type) where
+  m : ℕ
+  rank : ℕ
+  items : List (ℕ × HItem R)
+
+structure Heap (R : Type) where
+  size : ℕ
+  cell : ℕ → Cell R
+
+def Heap.empty : Heap R := ⟨0, fun _ => ⟨0, 0, []⟩⟩
+def Heap.msize (h : Heap R) (j : ℕ) : ℕ := (h.cell j).m
+def Heap.rank (h : Heap R) (j : ℕ) : ℕ := (h.cell j).rank
+def Heap.items (h : Heap R) (j : ℕ) : List (ℕ × HItem R) := (h.cell j).items
+
+/-- a new pool entry -/
+def Heap.alloc (h : Heap R) (c : Cell R) : Heap R :=
+  ⟨h.size + 1, fun k => if k = h.size then c else h.cell k⟩
+
+/-- `self._components.append(...)` on pool entry `i` -/
+def Heap.push (h : Heap R) (i : ℕ) (new : List (ℕ × HItem R)) : Heap R :=
+  ⟨h.size, fun k => if k = i then { h.cell i with items := (h.cell i).items ++ new } else h.cell k⟩
+
+/-! ### evaluation: `_compute_circuit_unitary` following object references
+
+`φ` is applied to the entries of the leaves' own matrices (their numeric value under the current
+parameter values); recursion through references is bounded by `fuel`. -/
+
+def prodH {S : Type} [CommRing S] (φ : R → S) (msz : ℕ → ℕ)
+    (ev : (j : ℕ) → MatV S (msz j) (msz j)) (m : ℕ) : List (ℕ × HItem R) → MatV S m m
+  | [] => MatV.ofMatrix 1
+  | (off, .val c) :: rest =>
+      MatV.ofMatrix ((prodH φ msz ev m rest).toMatrix * embed m off (unitaryV (c.map φ)).toMatrix)
+  | (off, .ref j) :: rest =>
+      MatV.ofMatrix ((prodH φ msz ev m rest).toMatrix * embed m off (ev j).toMatrix)
+
+def evalV {S : Type} [CommRing S] (φ : R → S) (h : Heap R) :
+    (fuel : ℕ) → (j : ℕ) → MatV S (h.msize j) (h.msize j)
+  | 0, _ => MatV.ofMatrix 1
+  | f + 1, j => prodH φ h.msize (evalV φ h f) (h.msize j) (h.items j)
+
+/-- what `pool[i].compute_unitary()` reports when the leaf entries are read through `φ` -/
+def eval {S : Type} [CommRing S] (φ : R → S) (h : Heap R) (i : ℕ) :
+    Matrix (Fin (h.msize i)) (Fin (h.msize i)) S :=
+  (evalV φ h (h.rank i + 1) i).toMatrix
+
+/-! ### snapshots: the tree obtained by resolving the references -/
+
+def resolveItems (rs : ℕ → Comp R) : List (ℕ × HItem R) → Items R
+  | [] => .nil
+  | (off, .val c) :: rest => .cons off c (resolveItems rs rest)
+  | (off, .ref j) :: rest => .cons off (rs j) (resolveItems rs rest)
+
+def resolveIt (h : Heap R) : ℕ → ℕ → Items R
+  | 0, _ => .nil
+  | f + 1, j => resolveItems (fun k => .circ (h.msize k) (resolveIt h f k)) (h.items j)
+
+def resolve (h : Heap R) (f j : ℕ) : Comp R := .circ (h.msize j) (resolveIt h f j)
+
+def snapshotItems (h : Heap R) (i : ℕ) : Items R := resolveIt h (h.rank i + 1) i
+def snapshot (h : Heap R) (i : ℕ) : Comp R := .circ (h.msize i) (snapshotItems h i)
+
+/-! ### operations on the pool -/
+
+inductive Op (R : Type) where
+  /-- `pool.append(Circuit(m))` -/
+  | new (m rank : ℕ)
+  /-- `pool[i].add(off, <elementary component with matrix U>)` -/
+  | leaf (i off k : ℕ) (U : Matrix (Fin k) (Fin k) R)
+  /-- `pool[i].add(off, pool[j], merge=False)` -/
+  | nest (i j off : ℕ)
+  /-- `pool[i].add(off, pool[j], merge=True)`, `pool[i] //= (off, pool[j])`, `pool[i] // (off, pool[j])`
+  (`//` on a `Circuit` is `copy.copy` — a second handle on the same `_components` list — followed by `//=`) -/
+  | merge (i j off : ℕ)
+  /-- `pool[i].barrier()` -/
+  | barrier (i : ℕ)
+  /-- `pool.append(pool[i].copy())`; `φ` is what `AParametrizedComponent.copy` does to the entries -/
+  | copy (i : ℕ) (φ : R → R)
+
+/-- the assertions of `Circuit.__init__` / `Circuit.add`, plus the rank discipline -/
+def Op.ok (h : Heap R) : Op R → Bool
+  | .new m _ => 0 < m
+  | .leaf i off k _ => i < h.size && 0 < k && off + k ≤ h.msize i
+  | .nest i j off => i < h.size && j < h.size && h.rank j < h.rank i && off + h.msize j ≤ h.msize i
+  | .merge i j off => i < h.size && j < h.size && h.rank j < h.rank i && off + h.msize j ≤ h.msize i
+  | .barrier i => i < h.size
+  | .copy i _ => i < h.size
+
+/-- `c.copy()` of one stored component: a sub-circuit is copied recursively (nested structure kept) -/
+def freezeItem (h : Heap R) (φ : R → R) : HItem R → Comp R
+  | .val c => c.map φ
+  | .ref j => (snapshot h j).map φ
+
+def applyOp [Zero R] [One R] (h : Heap R) : Op R → Heap R
+  | .new m r => h.alloc ⟨m, r, []⟩
+  | .leaf i off k U => h.push i [(off, .val (.leaf k U))]
+  | .nest i j off => h.push i [(off, .ref j)]
+  | .merge i j off =>
+      match h.items j with
+      | [] => h.push i [(off, .ref j)]
+      | x :: xs => h.push i ((x :: xs).map fun p => (p.1 + off, p.2))
+  | .barrier i => h.push i [(0, .val (barrierItem (h.msize i)))]
+  | .copy i φ => h.alloc ⟨h.msize i, h.rank i, (h.items i).map fun p => (p.1, .val (freezeItem h φ p.2))⟩
+
+/-- a rejected operation (`AssertionError`) leaves the pool unchanged -/
+def step [Zero R] [One R] (h : Heap R) (op : Op R) : Heap R :=
+  if op.ok h then applyOp h op else h
+
+def exec [Zero R] [One R] (h : Heap R) (ops : List (Op R)) : Heap R := ops.foldl step h
+
+/-- the pool entry an operation appends to (`none`: it only creates a new entry) -/
+def Op.target : Op R → Option ℕ
+  | .new _ _ => none
+  | .leaf i _ _ _ => some i
+  | .nest i _ _ => some i
+  | .merge i _ _ => some i
+  | .barrier i => some i
+  | .copy _ _ => none
+
+/-! ### invariant: what `add` asserted when each item was stored -/
+
+def HItem.Ok (h : Heap R) (m rank : ℕ) (p : ℕ × HItem R) : Prop :=
+  match p.2 with
+  | .val v => v.WF ∧ p.1 + v.size ≤ m
+  | .ref j => j < h.size ∧ h.rank j < rank ∧ p.1 + h.msize j ≤ m
+
+def Heap.Ok (h : Heap R) : Prop := ∀ i, ∀ p ∈ h.items i, HItem.Ok h (h.msize i) (h.rank i) p
+
+def Heap.AllUnitary [CommRing R] [StarRing R] (h : Heap R) : Prop :=
+  ∀ i, ∀ p ∈ h.items i, match p.2 with
+    | .val v => v.AllUnitary
+    | .ref _ => True
+
+/-! ## variable parameters
+
+A leaf bound to variable parameters has a matrix that is a function of the environment `E` of
+parameter values: its entries live in the ring `E → S`.  `Parameter.set_value` changes the
+environment, not the circuits; `Circuit.copy()` replaces every defined parameter by a *fixed*
+parameter at its current value (`Parameter(p.name, float(p), …)`): `freeze e`. `//` and `@`
+(`copy.copy`) keep the `Parameter` objects: they are plain `merge`/`barrier` operations. -/
+
+def atEnv {E S : Type} (e : E) : (E → S) → S := fun x => x e
+def freeze {E S : Type} (e : E) : (E → S) → (E → S) := fun x _ => x e
+
+structure World (E S : Type) where
+  heap : Heap (E → S)
+  env : E
+
+inductive WOp (E S : Type) where
+  /-- any structural operation (a `copy` here carries its own coefficient map) -/
+  | struct (op : Op (E → S))
+  /-- `pool.append(pool[i].copy())` under the current parameter values -/
+  | copy (i : ℕ)
+  /-- `Parameter.set_value` (any number of them): the environment becomes `g env` -/
+  | set (g : E → E)
+
+def wstep {E S : Type} [Zero S] [One S] (w : World E S) : WOp E S → World E S
+  | .struct op => { w with heap := step w.heap op }
+  | .copy i => { w with heap := step w.heap (.copy i (freeze w.env)) }
+  | .set g => { w with env := g w.env }
+
+def wexec {E S : Type} [Zero S] [One S] (w : World E S) (ops : List (WOp E S)) : World E S :=
+  ops.foldl wstep w
+
+def WOp.target {E S : Type} : WOp E S → Option ℕ
+  | .struct op => op.target
+  | .copy _ => none
+  | .set _ => none
+
+/-- what `pool[i].compute_unitary()` reports in world `w` -/
+def observe {E S : Type} [CommRing S] (w : World E S) (i : ℕ) :
+    Matrix (Fin (w.heap.msize i)) (Fin (w.heap.msize i)) S :=
+  eval (atEnv w.env) w.heap i
+
+/-- executable form of `observe` -/
+def observeV {E S : Type} [CommRing S] (w : World E S) (i : ℕ) :
+    MatV S (w.heap.msize i) (w.heap.msize i) :=
+  evalV (atEnv w.env) w.heap (w.heap.rank i + 1) i
+
 end PM.C01
